@@ -197,6 +197,12 @@ impl<'a> ProtobufReader<'a> {
     ) -> Result<Vec<<T as ReadableType>::Type>, <Self as Reader>::Error> {
         let mut vec = Vec::new();
 
+        // a list directly within a list has no protobuf representation (there is no field
+        // to enumerate), trying to read it would never terminate
+        if matches!(self.state, State::Root { .. }) {
+            return Err(Error::unexpected_format(Format::LengthDelimited));
+        }
+
         while let Some(range) = self.next_tag_range::<false>() {
             let mut state = State::Root { range };
             core::mem::swap(&mut self.state, &mut state);
